@@ -102,7 +102,6 @@ func SpecDec(v int64) string { panic("abstract spec function") }
 //@   ghost var lpHdr mathint = 0
 //@   ghost var lpCounted mathint = 0
 //@   ghost var lpCountCalls mathint = 0
-//@   requires header: len(data) >= 6
 //@   modifies lpHdr, lpCounted, lpCountCalls, lpWalked
 //@   set lpHdr = result after call Uint16
 //@   set lpCounted = result after call countElements
